@@ -44,6 +44,7 @@ code as it is; the rules then see the original spelling."""
 from __future__ import annotations
 
 import ast
+import re
 import copy
 import itertools
 
@@ -501,6 +502,45 @@ def _attr_table(node, attrs):
     return None
 
 
+def _only_walked(stmts, name) -> bool:
+    """is the local `name` read, in these statements, as the iterable of a `for` (itself or its .items() / .keys() / .values())?"""
+    for st in stmts:
+        for n in ast.walk(st):
+            if isinstance(n, ast.For):
+                it = n.iter
+                if isinstance(it, ast.Call) and isinstance(it.func, ast.Attribute) and it.func.attr in ("items", "keys", "values") and not it.args and not it.keywords:
+                    it = it.func.value
+                if isinstance(it, ast.Name) and it.id == name:
+                    return True
+    return False
+
+
+def _hoist_computed_entries(st: ast.Assign):
+    """`T = {"a": f(), "b": x}` / `T = [("a", f()), ..]`  ->  [`_tvN = f()`], with the display (edited in place) holding `_tvN` instead: the
+    entries that cannot be copied (calls, comprehensions) are evaluated once, in display order, before the display is built"""
+    pre = []
+
+    def fresh(e):
+        nm = f"_tv{next(_counter)}"
+        pre.append(ast.fix_missing_locations(ast.copy_location(ast.Assign(targets=[ast.Name(id=nm, ctx=ast.Store())], value=e), e)))
+        return ast.copy_location(ast.Name(id=nm, ctx=ast.Load()), e)
+
+    def entries(elts):
+        for i, e in enumerate(elts):
+            if e is None or _pure(e, lambdas=True):
+                continue
+            if isinstance(e, (ast.Tuple, ast.List)) and not any(isinstance(x, ast.Starred) for x in e.elts):
+                entries(e.elts)
+            elif not isinstance(e, ast.Starred):
+                elts[i] = fresh(e)
+    v = st.value
+    if isinstance(v, ast.Dict):
+        entries(v.values)
+    else:
+        entries(v.elts)
+    return pre
+
+
 def _unroll_block(stmts, lits, once=frozenset(), attrs=None, static: bool = False):
     """lits: name -> literal sequence node still valid at this point;  once: the locals read exactly once in the function (only
     those may stand for a one-shot zip / enumerate iterator);  attrs: (receiver, attribute) -> class-level literal table.
@@ -547,6 +587,13 @@ def _unroll_block(stmts, lits, once=frozenset(), attrs=None, static: bool = Fals
             # a local bound to a literal table, or to a class-level / local table under another name (`rows = self._ROWS`); a
             # zip / enumerate of literals is a one-shot iterator: the local stands for its rows only where it is read once
             seq = _literal_table(st.value) or _attr_table(st.value, attrs) or (lits.get(st.value.id) if isinstance(st.value, ast.Name) else None)
+            if seq is not None and isinstance(st.value, (ast.Dict, ast.List, ast.Tuple)) and st.targets[0].id in once \
+                    and not all(_pure(e, lambdas=True) for e in seq.elts) and _only_walked(stmts[stmts.index(st) + 1:], st.targets[0].id):
+                # a display with computed entries (`{"n": len(xs), "t": now()}`) whose only use is a later `for` over it: the computed
+                # entries are bound to fresh locals first, in the order the display evaluates them -- the same values, evaluated once at
+                # the same place, and the display holds names only, so the loop over it can be unrolled like one over a literal table
+                out.extend(_hoist_computed_entries(st))
+                seq = _literal_table(st.value)
             oneshot = isinstance(st.value, ast.Call) and not static
             if seq is None and static:
                 seq = _static_seq(st.value, lits)
@@ -2250,6 +2297,78 @@ def index_loops_to_enumerate(func):
     tr = _IndexLoops()
     tr.lens = _single_lens(func)
     func.body = [tr.visit(st) for st in func.body]
+    return func
+
+
+# ------------------------------------------------------------------------------------------- dict loops by key -> .items()
+
+def dict_key_loops_to_items(func):
+    """`for k in D: .. D[k] ..` / `for k in D.keys(): .. D[k] ..`  ->  `for k, v in D.items(): .. v ..`  when D is a PARAMETER of the function
+    annotated as a dict (`dict[..]` / `Dict[..]` / `dict`), or such a parameter defaulted once at the top level (`D = D or {}`), and the
+    body neither re-binds k or D nor stores into D: the same keys in the same order, each with the value looked up under it.  A leading
+    `v = D[k]` supplies the value's name.  (Only dict-typed names: `X[x]` for x in a list X would mean something else.)"""
+    a = func.args
+    dicts = set()
+    for p_ in a.posonlyargs + a.args + a.kwonlyargs:
+        ann = ast.unparse(p_.annotation) if p_.annotation is not None else ""
+        if re.match(r"(typing\.)?(dict|Dict|Mapping|OrderedDict)\b", ann):
+            dicts.add(p_.arg)
+    if not dicts:
+        return func
+    # the parameter may be re-bound only as `D = D or {}` / `D = {} if D is None else D` (still a dict)
+    for st in ast.walk(func):
+        if isinstance(st, (ast.Assign, ast.AugAssign, ast.AnnAssign)):
+            for t in (st.targets if isinstance(st, ast.Assign) else [st.target]):
+                for x in ast.walk(t):
+                    if isinstance(x, ast.Name) and x.id in dicts and not (isinstance(t, ast.Name) and isinstance(st, ast.Assign) and isinstance(st.value, (ast.BoolOp, ast.IfExp))
+                                                                           and all(isinstance(y, (ast.Name, ast.Dict, ast.Constant, ast.BoolOp, ast.IfExp, ast.Compare, ast.Load, ast.Or, ast.Is, ast.IsNot, ast.Not, ast.UnaryOp, ast.And))
+                                                                                   for y in ast.walk(st.value))):
+                        dicts.discard(x.id)
+
+    class T(ast.NodeTransformer):
+        def visit_For(self, n):
+            self.generic_visit(n)
+            it = n.iter
+            if isinstance(it, ast.Call) and isinstance(it.func, ast.Attribute) and it.func.attr == "keys" and not it.args and not it.keywords:
+                it = it.func.value
+            if n.orelse or not (isinstance(it, ast.Name) and it.id in dicts and isinstance(n.target, ast.Name)):
+                return n
+            d, k = it.id, n.target.id
+            stored = _stored(n.body)
+            if k in stored or d in stored:
+                return n
+
+            def is_val(e):
+                return isinstance(e, ast.Subscript) and isinstance(e.ctx, ast.Load) and isinstance(e.value, ast.Name) and e.value.id == d \
+                    and isinstance(e.slice, ast.Name) and e.slice.id == k
+            body = list(n.body)
+            first = body[0] if body else None
+            if isinstance(first, ast.Assign) and len(first.targets) == 1 and isinstance(first.targets[0], ast.Name) and is_val(first.value) \
+                    and first.targets[0].id not in _stored(body[1:]) and first.targets[0].id != k:
+                name = first.targets[0].id
+                body = body[1:] or [ast.copy_location(ast.Pass(), first)]
+            elif any(is_val(e) for st in body for e in ast.walk(st)):
+                name = f"_val{next(_counter)}"
+            else:
+                return n
+
+            class R(ast.NodeTransformer):
+                def visit_Subscript(self, e):
+                    if is_val(e):
+                        return ast.copy_location(ast.Name(id=name, ctx=ast.Load()), e)
+                    return self.generic_visit(e)
+            n.body = [R().visit(st) for st in body]
+            n.target = ast.copy_location(ast.Tuple(elts=[ast.Name(id=k, ctx=ast.Store()), ast.Name(id=name, ctx=ast.Store())], ctx=ast.Store()), n.target)
+            n.iter = ast.copy_location(ast.Call(func=ast.Attribute(value=ast.Name(id=d, ctx=ast.Load()), attr="items", ctx=ast.Load()), args=[], keywords=[]), n.iter)
+            ast.fix_missing_locations(n)
+            return n
+
+        def visit_FunctionDef(self, n):
+            if n is func:
+                self.generic_visit(n)
+            return n
+        visit_Lambda = visit_AsyncFunctionDef = visit_ClassDef = lambda self, n: n
+    T().visit(func)
     return func
 
 
